@@ -112,7 +112,8 @@ def run(ctx):
     fe, pe = own_method_paths(ctx, "FlagsEnum", "_encode")
     isdict = ("call", ("free", "isinstance"), (OBJ, ("free", "dict")), ())
     dp = [p for p in pe if isdict in p.guards() and p.returns]
-    skip = [c for p in dp for c in p.guards() if c[0] in ("not", "call") and any(x[0] == "attr" and x[2] == "startswith" for x in N.walk(c))]
+    # some guard of the dict branch tests the key with startswith (alone, negated, or merged with the value test by de Morgan)
+    skip = [c for p in dp for c in p.guards() if any(x[0] == "call" and x[1][0] == "attr" and x[1][2] == "startswith" and x[2] == (N.const("_"),) for x in N.walk(c))]
     # ... or filters them out in the comprehension it iterates over
     for p in dp:
         for e in p.of("LOOP"):
